@@ -43,9 +43,20 @@ pub open spec fn img_be64(v: int) -> Seq<u8> {
 pub trait VpBe<const N: usize>: Sized {
     spec fn be_img(self) -> Seq<u8>;
 
+    /// the big-endian value of the first N octets of `s` (be16 / be32 / be64 of the RFC layer)
+    spec fn be_val(s: Seq<u8>) -> int;
+
+    spec fn vp_int(self) -> int;
+
     fn vp_to_be_bytes(self) -> (r: [u8; N])
         ensures
             r@ == self.be_img(),
+    ;
+
+    /// rule R3 (read side): `uN::from_be_bytes(a)`; the body is that call
+    fn vp_from_be_bytes(a: [u8; N]) -> (r: Self)
+        ensures
+            r.vp_int() == Self::be_val(a@),
     ;
 }
 
@@ -54,9 +65,22 @@ impl VpBe<2> for u16 {
         img_be16(self as int)
     }
 
+    open spec fn be_val(s: Seq<u8>) -> int {
+        be16(s, 0)
+    }
+
+    open spec fn vp_int(self) -> int {
+        self as int
+    }
+
     #[verifier::external_body]
     fn vp_to_be_bytes(self) -> (r: [u8; 2]) {
         self.to_be_bytes()
+    }
+
+    #[verifier::external_body]
+    fn vp_from_be_bytes(a: [u8; 2]) -> (r: Self) {
+        u16::from_be_bytes(a)
     }
 }
 
@@ -65,9 +89,22 @@ impl VpBe<4> for u32 {
         img_be32(self as int)
     }
 
+    open spec fn be_val(s: Seq<u8>) -> int {
+        be32(s, 0)
+    }
+
+    open spec fn vp_int(self) -> int {
+        self as int
+    }
+
     #[verifier::external_body]
     fn vp_to_be_bytes(self) -> (r: [u8; 4]) {
         self.to_be_bytes()
+    }
+
+    #[verifier::external_body]
+    fn vp_from_be_bytes(a: [u8; 4]) -> (r: Self) {
+        u32::from_be_bytes(a)
     }
 }
 
@@ -76,9 +113,22 @@ impl VpBe<8> for u64 {
         img_be64(self as int)
     }
 
+    open spec fn be_val(s: Seq<u8>) -> int {
+        be64(s, 0)
+    }
+
+    open spec fn vp_int(self) -> int {
+        self as int
+    }
+
     #[verifier::external_body]
     fn vp_to_be_bytes(self) -> (r: [u8; 8]) {
         self.to_be_bytes()
+    }
+
+    #[verifier::external_body]
+    fn vp_from_be_bytes(a: [u8; 8]) -> (r: Self) {
+        u64::from_be_bytes(a)
     }
 }
 
